@@ -41,7 +41,23 @@ theorem idealAt_eq_semF (F0 : SemFn) (Fs tl : List SemFn) (input : List Val) :
 /-- the semantic function of the node `mkNode` builds for a stage -/
 def stageF : Stage → SemFn
   | .batch n => stageSem (.batch n)
+  | .opmap _ k bad e => parRun k bad e
   | st => xfRun st {}
+
+/-- the sequential semantics of the ordered parallel map is the spec's list function -/
+theorem parRun_eq_stageSem (w : Nat) (k : Int) (bad : Option Int) (e : Err) (vs : List Val) :
+    parRun k bad e vs = stageSem (.opmap w k bad e) vs := by
+  induction vs with
+  | nil => rfl
+  | cons v vs ih =>
+    cases v with
+    | int x =>
+      by_cases hx : bad = some x
+      · simp [parRun, parFn, hx, stageSem, ints, beforeBad]
+      · have hx' : (bad = some x) = False := by simp [hx]
+        simp only [stageSem] at ih
+        simp [parRun, parFn, hx, ih, stageSem, ints, beforeBad, List.takeWhile_cons, hx']
+    | list l => simp [parRun, parFn, stageSem, ints, tyErr, beforeBad]
 
 theorem stageF_eq_stageSem (st : Stage) (h : Stage.covered st = true) (xs : List Val) :
     stageF st xs = stageSem st xs := by
@@ -49,6 +65,7 @@ theorem stageF_eq_stageSem (st : Stage) (h : Stage.covered st = true) (xs : List
   all_goals first
     | rfl
     | exact xfRun_eq_stageSem _ rfl xs
+    | exact parRun_eq_stageSem _ _ _ _ xs
 
 theorem semF_eq_sem (stages : List Stage) (h : ∀ st ∈ stages, Stage.covered st = true) (xs : List Val) :
     semF (stages.map stageF) xs = sem stages xs := by
